@@ -172,3 +172,23 @@ Proof.
   exists m. intros x Hr Hb i js Hi' Hjs. rewrite E in Hr.
   apply (window_has_empty_step p (rg_T rg) m (rg_dt rg) x md (eq_sym Hl) H0 Hi Hr Hb i js Hi' Hjs).
 Qed.
+
+(* The known finding, as a theorem about the faithful model: with a start level above zero the indicator rows bound the NET charge,
+   not the level - a storage that simply keeps its start level satisfies every row with all indicators 0, and its level is
+   non-zero for longer than the duration (size 4, start = end = 1, duration 1, three steps of length 1, no dispatch). *)
+Lemma holding_duration_start_level_refuted :
+  exists p n m dt md x i js, n = List.length dt /\ sp_inflow p == 0 /\ storage_ctor_ok p = true /\ sp_max_dur p = Some md /\
+    Forall (row_ok x) (md_rows1 m n (st_rows p n dt) ++ flat_map (md_win m dt md) (seq 0 n)) /\
+    (forall t, (t < n)%nat -> nth (m + t) x 0 == 0 \/ nth (m + t) x 0 == 1) /\
+    (i < n)%nat /\ md_js dt md i = Some js /\ forall j, In j js -> 0 < level p n dt x (i + j).
+Proof.
+  exists (Build_storage_p "s" ["n"]%string 4 2 2 1 1 0 0 0 1 0 None false (Some 1)), 3%nat, 3%nat, [1; 1; 1], 1,
+         [0; 0; 0; 0; 0; 0], 0%nat, [0; 1]%nat.
+  split; [reflexivity|]. split; [vm_compute; reflexivity|]. split; [vm_compute; reflexivity|]. split; [reflexivity|].
+  split; [|split; [|split; [|split]]].
+  - set (r := _ ++ _). vm_compute in r. subst r. repeat constructor; vm_compute; intuition discriminate.
+  - intros t Ht. left. destruct t as [|[|[|t]]]; try reflexivity. lia.
+  - lia.
+  - vm_compute. reflexivity.
+  - intros j [<-|[<-|[]]]; vm_compute; reflexivity.
+Qed.
